@@ -66,6 +66,17 @@ def judge(case):
         if m_next <= -1e-9 * abs(tr["m"][-1]):
             v.append(core.viol("C18/exhausting_step_returned/" + setup.kind, "the last of the %d requested steps removes more than the remaining feed (%r kg left, balance gives %r kg) "
                                "but the call returns instead of raising" % (tr["n"], tr["m"][-1], m_next), m=tr["m"], J=tr["J"][-1]))
+    if bad is None and not v:
+        # the same for each component, on every reported transition: a step that draws more of a component than the feed
+        # holds cannot lead to an admissible state, so the call should have raised
+        for k in range(tr["n"]):
+            m_k, x_k = tr["m"][k], tr["x"][k]
+            d1 = tr["J"][k][0] * setup.area * setup.dt
+            d2 = tr["J"][k][1] * setup.area * setup.dt
+            if x_k * m_k - d1 < -1e-9 * m_k or (1 - x_k) * m_k - d2 < -1e-9 * m_k:
+                v.append(core.viol("C18/component_overdrawn_returned/" + setup.kind, "step %d removes %r kg of component 1 and %r kg of component 2 from a feed holding %r and %r kg, "
+                                   "yet the call returns" % (k, d1, d2, x_k * m_k, (1 - x_k) * m_k), step=k))
+                break
     if bad is not None:
         v.append(core.viol("C18/inadmissible_state/" + setup.kind, "reported state %d has %s" % bad, step=bad[0],
                            m=tr["m"], x=tr["x"], T=tr["T"], area=case["area"]))
@@ -83,7 +94,7 @@ def coarse_spaces(tier, seed):
         "amount": [50.0] if q else [0.047, 50.0],
         "dt": [0.5],
         "steps": [2, 3, 6],  # a 1-step run reports the initial state only
-        "x0": core.lat([0.05, 0.45, 0.95], seed),
+        "x0": core.lat([0.05, 0.45, 0.95], seed) + [0.0, 1.0],  # incl. pure feeds
         "basis": ["weight"],
         "T": [333.15],
         "area": [1.0],
